@@ -43,8 +43,8 @@ structure TaskGood (t : Task) : Prop where
 
 theorem TaskGood.final {t : Task} (h : TaskGood t) : TaskFinal t := h.finFinal
 
-theorem podTask_taskGood {p : PodObj} {t : Task} (hc : p.pod.creationTimestamp.isSome = true)
-    (h : podTask p = some t) : TaskGood t := by
+theorem podTask_taskGood {now : Time} {p : PodObj} {t : Task} (hc : p.pod.creationTimestamp.isSome = true)
+    (h : podTask now p = some t) : TaskGood t := by
   have hs := podTask_sem hc h
   exact ⟨(podTask_ok h).1, hs.succFin, hs.finFinal, hs.noDs⟩
 
